@@ -9,16 +9,18 @@ WANT = {"rand": "rand", "vh": "vh", "scale_info": "scale_info", "parity_scale_co
 
 
 class Deps:
-    def __init__(self, features=(), pkg="vh"):
-        """pkg="min": only scale-info itself is made available (harness/min)"""
+    def __init__(self, features=(), pkg="vh", hooks=False):
+        """pkg="min": only scale-info itself is made available (harness/min); hooks: the dependency set is built with
+        --cfg scale_info_verif (the library's trace hooks on) in a target directory of its own (extension check X04)"""
         self.features = tuple(features)
         want = WANT if pkg == "vh" else {"scale_info": "scale_info"}
         cmd = ["cargo", "build", "--offline", "-p", pkg, "--lib", "--message-format=json"]
         if features:
             cmd += ["--features", ",".join(features)]
-        cmd += vlib.cargo_extra()
+        target = vlib.TARGET + ("-hooks" if hooks else "")
+        cmd += (["--config", 'paths=["%s"]' % vlib.ALT_REPO] if vlib.ALT else []) + (["--target-dir", target] if (vlib.ALT or hooks) else [])
         with vlib.Lock("cargo"):
-            p = vlib.run(cmd, cwd=vlib.HARNESS, env={"CARGO_NET_OFFLINE": "true", "RUSTFLAGS": vlib.rustflags()})
+            p = vlib.run(cmd, cwd=vlib.HARNESS, env={"CARGO_NET_OFFLINE": "true", "RUSTFLAGS": vlib.rustflags("--cfg scale_info_verif" if hooks else "")})
         if p.returncode != 0:
             raise vlib.ToolError("cargo build (program deps) failed:\n" + p.stderr[-5000:])
         self.externs = {}
@@ -36,7 +38,7 @@ class Deps:
         missing = [v for v in want.values() if v not in self.externs]
         if missing:
             raise vlib.ToolError("could not locate rlibs for %s" % missing)
-        self.depdir = os.path.join(vlib.TARGET, "debug", "deps")
+        self.depdir = os.path.join(target, "debug", "deps")
 
     def rustc_cmd(self, src, out, extra=(), rename=None):
         cmd = ["rustc", "--edition", "2021", "--crate-type", "bin", "-C", "debuginfo=0", "-C", "opt-level=0", "-A", "warnings",
